@@ -3,7 +3,7 @@ import math
 import numpy as np
 from hypothesis import strategies as st
 from vf import gens
-from vf.runner import hyp_run, guard, fail, exc_failure
+from vf.runner import hyp_run, run_cases, guard, fail, exc_failure
 
 RULE = ("cells from 7 families (triclinic angles constructed inside the positive-volume region, a,b,c in "
         "[2,30] A, angles in [55,125] deg) x centring P/A/B/C/I/F/R x d* limit (bounded so the brute-force "
@@ -224,10 +224,7 @@ REGRESSION = [   # pinned cases of the defects fixed in the repository (D1, D2)
 def run_shard(rec):
     quick = rec.tier == "quick"
     if rec.shard == 0:
-        for case in REGRESSION:
-            f = rec.filter_known(check(case, rec))
-            if f:
-                rec.violation("regression", case, f)
+        run_cases(rec, "regression", REGRESSION, lambda c: check(c, rec))
     hyp_run(rec, "cells", cases(20000 if quick else 120000), lambda c: check(c, rec),
             max_examples=300 if quick else 2000)
 
